@@ -110,6 +110,11 @@ pub mod vx_canon {
 
 // ---- std specs missing from vstd (trusted; the contract is the std documentation)
 verus! {
+/// char classification: specified on ASCII only (what Unicode says about the rest is left open)
+pub assume_specification [char::is_alphanumeric] (c: char) -> (r: bool)
+    ensures (c as u32) < 128 ==> r == ((97 <= c as u32 <= 122) || (65 <= c as u32 <= 90) || (48 <= c as u32 <= 57));
+pub assume_specification [char::is_ascii_alphanumeric] (c: &char) -> (r: bool)
+    ensures r == ((97 <= *c as u32 <= 122) || (65 <= *c as u32 <= 90) || (48 <= *c as u32 <= 57));
 pub assume_specification<T, P: FnOnce(&T) -> bool> [core::option::Option::<T>::filter] (o: Option<T>, p: P) -> (r: Option<T>)
     requires o is Some ==> call_requires(p, (&o->Some_0,)),
     ensures (match o {
